@@ -187,6 +187,66 @@ async fn exec<C: AsyncCache<RibbitKey>>(c: &C, op: &str, k: u64, id: u64) -> Val
     }
 }
 
+/// DynamicContainer as a presence map: key k <-> the content written by "put"(k); the stored object is
+/// addressed by the encoding key of its BLTE wrapping, so every writer of k writes the same bytes.
+thread_local! { static TOKIO_RT: tokio::runtime::Runtime = verif_harness::rt(); }
+/// DynamicContainer uses tokio::fs: every thread drives its calls on its own current-thread runtime
+fn tok<F: std::future::Future>(f: F) -> F::Output {
+    TOKIO_RT.with(|rt| rt.block_on(f))
+}
+
+fn dyn_exec(dir: &std::path::Path) -> Exec {
+    use cascette_client_storage::container::{AccessMode, Container, DynamicContainer};
+    use cascette_formats::CascFormat;
+    use cascette_formats::blte::{BlteFile, CompressionMode};
+    let dirb = dir.to_path_buf();
+    let mk = move || {
+        let c = DynamicContainer::new(AccessMode::ReadWrite, dirb.clone(), false, 100, 1 << 30, false).expect("container");
+        tok(c.open()).expect("open container");
+        Arc::new(c)
+    };
+    let cell = Arc::new(std::sync::RwLock::new(mk()));
+    let content = |k: u64| -> Vec<u8> { (0..(64 + k * 37)).map(|i| (i as u8) ^ (k as u8).wrapping_mul(31)).collect() };
+    let key_of = move |k: u64| -> [u8; 16] {
+        let b = BlteFile::single_chunk(content(k), CompressionMode::None).expect("blte").build().expect("blte build");
+        *cascette_crypto::EncodingKey::from_data(&b).as_bytes()
+    };
+    Arc::new(move |op, k, _id| {
+      if op == "reopen" {
+          // close (drop) the container and open the directory again: the persisted index must agree with memory
+          let fresh = mk();
+          *cell.write().unwrap() = fresh;
+          return json!("ok");
+      }
+      let c = cell.read().unwrap().clone();
+      match op {
+        // the value of key k is identified by k itself (id = k in the history)
+        "put" | "put_exp" => match tok(c.write(&key_of(k), &content(k))) {
+            Ok(()) => json!("ok"),
+            Err(_) => json!("err"),
+        },
+        "get" => {
+            let mut buf = vec![0u8; 4096];
+            match tok(c.read(&key_of(k), 0, 4096, &mut buf)) {
+                Ok(n) if buf[..n] == content(k)[..] => json!(k),
+                Ok(_) => json!(-1),
+                Err(cascette_client_storage::StorageError::NotFound(_)) => json!(0),
+                Err(_) => json!("err"),
+            }
+        }
+        "contains" => match tok(c.query(&key_of(k))) {
+            Ok(b) => json!(b),
+            Err(_) => json!("err"),
+        },
+        "remove" => match tok(c.remove(&key_of(k))) {
+            Ok(()) => json!("ok"),
+            Err(_) => json!("err"),
+        },
+        other => panic!("driver: op {other} not supported by the dyn target"),
+      }
+    })
+}
+
 fn op_record(t: usize, i: usize, op: &str, k: u64, id: u64, inv: u64, ret: u64, res: Value) -> Value {
     // results are typed for TLC (which cannot compare an integer with a string): rk = kind, rv = integer value
     let (rk, rv) = match &res {
@@ -199,7 +259,13 @@ fn op_record(t: usize, i: usize, op: &str, k: u64, id: u64, inv: u64, ret: u64, 
     json!({"t": t, "i": i, "op": op, "k": k, "id": id, "inv": inv, "ret": ret, "res": res, "rk": rk, "rv": rv})
 }
 
-fn run_one<C: AsyncCache<RibbitKey> + 'static>(cache: Arc<C>, prog: &Value, ctl: &Arc<Ctl>, target: &str) -> Value {
+type Exec = Arc<dyn Fn(&str, u64, u64) -> Value + Send + Sync>;
+
+fn cache_exec<C: AsyncCache<RibbitKey> + 'static>(cache: Arc<C>) -> Exec {
+    Arc::new(move |op, k, id| futures::executor::block_on(exec(&*cache, op, k, id)))
+}
+
+fn run_one(cache: Exec, prog: &Value, ctl: &Arc<Ctl>, target: &str, probes: &[&str]) -> Value {
     let nkeys = prog["init"].as_array().unwrap().len() as u64;
     let progs: Vec<Vec<Value>> = prog["progs"].as_array().unwrap().iter().map(|p| p.as_array().unwrap().clone()).collect();
     let ntasks = progs.len();
@@ -215,13 +281,14 @@ fn run_one<C: AsyncCache<RibbitKey> + 'static>(cache: Arc<C>, prog: &Value, ctl:
             other => panic!("driver: bad init kind {other}"),
         };
         let inv = stamp();
-        let res = futures::executor::block_on(exec(&*cache, opn, k, k));
+        let res = cache(opn, k, k);
         let ret = stamp();
         ops.push(op_record(0, ki + 1, opn, k, k, inv, ret, res));
     }
     // parallel part
     let generation = ctl.reset(ntasks);
     let mut hs = vec![];
+    let dyn_target = target == "dyn";
     for (t, p) in progs.iter().enumerate() {
         let (cache, ctl, p) = (cache.clone(), ctl.clone(), p.clone());
         hs.push(std::thread::spawn(move || {
@@ -233,11 +300,12 @@ fn run_one<C: AsyncCache<RibbitKey> + 'static>(cache: Arc<C>, prog: &Value, ctl:
                 let k = op["k"].as_u64().unwrap();
                 let id = nkeys + (t as u64) * maxops + i as u64 + 1;
                 let inv = stamp();
-                let res = match guarded(|| futures::executor::block_on(exec(&*cache, name, k, id))) {
+                let res = match guarded(|| cache(name, k, id)) {
                     Ok(v) => v,
                     Err(m) => outcome_panic(&m),
                 };
                 let ret = stamp();
+                let (name, id) = if dyn_target { (if name == "remove" { "remove_u" } else { name }, k) } else { (name, id) };
                 if name == "clear" && res == json!("ok") {
                     // a clear is judged per key (a sharded map empties shard by shard): one record per key
                     for kk in 1..=nkeys {
@@ -300,18 +368,33 @@ fn run_one<C: AsyncCache<RibbitKey> + 'static>(cache: Arc<C>, prog: &Value, ctl:
     let mut i = 100;
     for k in 1..=nkeys {
         let inv = stamp();
-        let res = futures::executor::block_on(exec(&*cache, "get", k, 0));
+        let res = cache("get", k, 0);
         let ret = stamp();
         ops.push(op_record(0, i, "get", k, 0, inv, ret, res));
         i += 1;
     }
-    for name in ["size", "mem"] {
+    for name in probes {
         let inv = stamp();
-        let res = futures::executor::block_on(exec(&*cache, name, 0, 0));
+        let res = cache(name, 0, 0);
         let ret = stamp();
         ops.push(op_record(0, i, name, 0, 0, inv, ret, res));
         i += 1;
     }
+    if target == "dyn" {
+        let inv = stamp();
+        let res = cache("reopen", 0, 0);
+        let ret = stamp();
+        ops.push(op_record(0, i, "reopen", 0, 0, inv, ret, res));
+        i += 1;
+        for k in 1..=nkeys {
+            let inv = stamp();
+            let res = cache("get", k, 0);
+            let ret = stamp();
+            ops.push(op_record(0, i, "get", k, 0, inv, ret, res));
+            i += 1;
+        }
+    }
+    let _ = i;
     // renumber stamps densely from 1 (keeps integers small for TLC)
     let mut stamps: Vec<u64> = ops.iter().flat_map(|o| [o["inv"].as_u64().unwrap(), o["ret"].as_u64().unwrap()]).collect();
     stamps.sort_unstable();
@@ -333,15 +416,18 @@ fn run_one<C: AsyncCache<RibbitKey> + 'static>(cache: Arc<C>, prog: &Value, ctl:
     v
 }
 
-fn random_program(rng: &mut Rng, tasks: u64, nops: u64, keys: u64) -> Value {
-    let kinds = ["none", "live", "exp"];
-    let names = ["get", "contains", "put", "put_exp", "remove", "clear", "get", "put"];
-    let init: Vec<&str> = (0..keys).map(|_| *rng.pick(&kinds)).collect();
+fn random_program(rng: &mut Rng, tasks: u64, nops: u64, keys: u64, target: &str) -> Value {
+    let (kinds, names): (&[&str], &[&str]) = if target == "dyn" {
+        (&["none", "live"], &["get", "contains", "put", "remove", "get", "put"])
+    } else {
+        (&["none", "live", "exp"], &["get", "contains", "put", "put_exp", "remove", "clear", "get", "put"])
+    };
+    let init: Vec<&str> = (0..keys).map(|_| *rng.pick(kinds)).collect();
     let progs: Vec<Vec<Value>> = (0..tasks)
         .map(|_| {
             (0..nops)
                 .map(|_| {
-                    let n = *rng.pick(&names);
+                    let n = *rng.pick(names);
                     json!({"op": n, "k": if n == "clear" { 0 } else { 1 + rng.below(keys) }})
                 })
                 .collect()
@@ -362,14 +448,14 @@ fn main() {
     let nrand = arg_u64(&args, "--random", 0);
     let mut rng = Rng::new(seed_from_env());
     for _ in 0..nrand {
-        programs.push(random_program(&mut rng, arg_u64(&args, "--tasks", 3), arg_u64(&args, "--ops", 3), arg_u64(&args, "--keys", 2)));
+        programs.push(random_program(&mut rng, arg_u64(&args, "--tasks", 3), arg_u64(&args, "--ops", 3), arg_u64(&args, "--keys", 2), &target));
     }
     let ctl = Arc::new(Ctl { st: Mutex::new(CtlState { generation: 0, tasks: vec![], grant: None, free: true }), cv: Condvar::new() });
     let c2 = ctl.clone();
     // random-yield state for unscheduled runs
     let yield_seed = Arc::new(AtomicU64::new(seed_from_env()));
     let ys = yield_seed.clone();
-    verif_hooks::install_sched(Some(Arc::new(move |site| {
+    let handler: Arc<verif_hooks::SchedFn> = Arc::new(move |site| {
         if let Some((generation, t)) = TASK.with(Cell::get) {
             let free = {
                 let g = c2.st.lock().unwrap();
@@ -388,21 +474,30 @@ fn main() {
                 c2.park(generation, t, site);
             }
         }
-    })));
+    });
+    verif_hooks::install_sched(Some(handler.clone()));
+    cascette_client_storage::verif_hooks::install_sched(Some(handler));
     let tdir = tempfile::tempdir_in(if std::path::Path::new("/dev/shm").is_dir() { "/dev/shm".into() } else { std::env::temp_dir() }).unwrap();
     let base = tdir.path().to_path_buf();
     let target2 = target.clone();
     let counter = Arc::new(AtomicU64::new(0));
     let st = run_with_watchdog(programs, &mut out, Duration::from_secs(15), move |prog, em| {
         em.begin(&json!({"program": prog["progs"], "sched": prog.get("sched")}));
-        let v = if target2 == "mem" {
+        let v = if target2 == "dyn" {
+            let n = counter.fetch_add(1, Ordering::Relaxed);
+            let dir = base.join(format!("c{n}"));
+            std::fs::create_dir_all(&dir).unwrap();
+            let v = run_one(dyn_exec(&dir), prog, &ctl, "dyn", &[]);
+            let _ = std::fs::remove_dir_all(&dir);
+            v
+        } else if target2 == "mem" {
             let cache = Arc::new(MemoryCache::<RibbitKey>::new(MemoryCacheConfig::new().with_max_entries(100_000)).expect("memory cache"));
-            run_one(cache, prog, &ctl, "mem")
+            run_one(cache_exec(cache), prog, &ctl, "mem", &["size", "mem"])
         } else {
             let n = counter.fetch_add(1, Ordering::Relaxed);
             let dir = base.join(format!("r{n}"));
             let cache = Arc::new(DiskCache::<RibbitKey>::new(DiskCacheConfig::new(dir.clone()).with_subdirectories(false, 0)).expect("disk cache"));
-            let v = run_one(cache, prog, &ctl, "disk");
+            let v = run_one(cache_exec(cache), prog, &ctl, "disk", &["size", "mem"]);
             let _ = std::fs::remove_dir_all(&dir);
             v
         };
